@@ -33,6 +33,7 @@ struct GenKnobs {
     int p_container = 30;       // percent
     int p_empty = 25;           // percent of containers left empty
     bool names_nul = true;      // allow 0x00 in names
+    int max_kids = 5;           // children per container: 1..max_kids
 };
 
 // piece boundaries for the writer contract (C04)
